@@ -1,19 +1,19 @@
 CONSTANTS
-  MaxVer = 3
-  NQ = 2
+  MaxVer = 4
+  NQ = 3
   QKinds <- KAll
   Orders <- OAll
   Crashes = FALSE
   Snapshots = TRUE
   Fine = TRUE
-  AtomicResolve = FALSE
+  AtomicResolve = TRUE
   Coarse = TRUE
-  Keep <- KeepAll
+  Keep = 1
   StoreDirect = FALSE
   MetaDirect = FALSE
-  MaxLen = 40
+  MaxLen = 90
 INIT Init
 NEXT Next
 VIEW StateView
-INVARIANTS TypeOK Recoverable QueryConsistent QueryCommitted QueryLoads RefsSound SnapshotsWhole
+INVARIANTS TypeOK Recoverable QueryConsistent QueryCommitted RefsSound SnapshotsWhole
 PROPERTIES QueriesReadOnly
